@@ -2398,6 +2398,7 @@ Section Unresolvable.
     exists e, fs_symlink s target q = (Err e, s) /\ is_not_found e = true.
   Proof.
     intros target. unfold fs_symlink. destruct target as [|x t]; [exists ENOENT; split; reflexivity|].
+    rewrite (strip_or_self_abs_cleaned q Hac).
     destruct (Hun false) as [e [E Hnf]]. rewrite E. exists e. split; [reflexivity | exact Hnf].
   Qed.
 
@@ -2417,7 +2418,8 @@ Section Unresolvable.
 
   Lemma fs_rename_unresolvable_new : forall po, exists e, fs_rename s po q = (Err e, s).
   Proof.
-    intros po. unfold fs_rename. destruct (Hun false) as [e [E _]]. rewrite E.
+    intros po. unfold fs_rename. rewrite (strip_or_self_abs_cleaned q Hac).
+    destruct (Hun false) as [e [E _]]. rewrite E.
     destruct (resolve (st_fs s) po false) as [ko no|pk name sl|e0].
     - destruct ko; eexists; reflexivity.
     - eexists; reflexivity.
@@ -2962,7 +2964,7 @@ Section Run.
     a_symlink (the_api tag pfx) t p w = (MErr e, after tag (PM MSymlink) p t (Some e) w (w_st w)).
   Proof.
     intros t. rewrite (the_api_symlink tag pfx Hp t p (proj2 Hac)). destruct (sym_accb pfx t p).
-    - destruct (fs_symlink_unresolvable (w_st w) (wpath pfx p) Hun (sym_target pfx t)) as [e [E _]]. exists e.
+    - destruct (fs_symlink_unresolvable (w_st w) (wpath pfx p) WAC Hun (sym_target pfx t)) as [e [E _]]. exists e.
       rewrite (spied_fs_upd_fin _ tag (PM MSymlink) p t _ w Hq), E. reflexivity.
     - exists (ELayer EPERM).
       rewrite (spied_quiet_run _ tag (PM MSymlink) p t _ w (MErr (ELayer EPERM)) (tickw w) Hq);
@@ -3013,7 +3015,7 @@ Proof.
   destruct Hun as [Hun|Hun].
   - destruct (fs_rename_unresolvable_old (w_st w) (wpath pfx po) Hun (wpath pfx pn)) as [e E].
     exists e. rewrite E. reflexivity.
-  - destruct (fs_rename_unresolvable_new (w_st w) (wpath pfx pn) Hun (wpath pfx po)) as [e E].
+  - destruct (fs_rename_unresolvable_new (w_st w) (wpath pfx pn) (wpath_abs_cleaned pfx pn Hp (proj2 Hn)) Hun (wpath pfx po)) as [e E].
     exists e. rewrite E. reflexivity.
 Qed.
 
@@ -3101,6 +3103,7 @@ Lemma fs_rename_direct_leaf : forall s po pn,
     end.
 Proof.
   intros s po pn Hwf Hdo Hlo Hdn Hln Hco Hcn Hnc. unfold fs_rename.
+  rewrite (strip_or_self_abs_cleaned pn (proj1 Hdn)).
   rewrite (resolve_direct _ po false Hdo Hlo (or_introl eq_refl)).
   rewrite (resolve_direct _ pn false Hdn Hln (or_introl eq_refl)).
   pose proof (proj1 (has_children_false_iff (st_fs s) (comps po)) Hnc) as Hnc'. clear Hnc. rename Hnc' into Hnc.
